@@ -198,7 +198,24 @@ impl Drop for Target {
     fn drop(&mut self) {
         self.done.store(true, Ordering::SeqCst);
         let _ = self.child.kill();
-        let _ = self.child.wait();
+        // a thread that a (faulty) dumper left attached to us has to be reaped by us, the tracer, before the
+        // thread-group leader can be
+        for th in self.threads.iter().filter(|x| x.tid != self.pid) {
+            let mut st = 0;
+            unsafe { libc::waitpid(th.tid, &mut st, libc::__WALL | libc::WNOHANG) };
+        }
+        for _ in 0..200 {
+            match self.child.try_wait() {
+                Ok(Some(_)) => return,
+                _ => {
+                    for th in self.threads.iter().filter(|x| x.tid != self.pid) {
+                        let mut st = 0;
+                        unsafe { libc::waitpid(th.tid, &mut st, libc::__WALL | libc::WNOHANG) };
+                    }
+                    std::thread::sleep(std::time::Duration::from_millis(5));
+                }
+            }
+        }
     }
 }
 
